@@ -1,27 +1,165 @@
-//! C31 corpus: `sliced!` programs whose body emits one record per slice.
+//! C31 corpus: `sliced!` programs whose body emits one record per slice, so the checker can read
+//! batch contents, snapshot values and slice-local state of every slice from the output.
+//! Inputs are the counters 1,2,3,.. (versions are readable from values).
+use hydro_lang::live_collections::stream::NoOrder;
+use hydro_lang::location::Atomic;
 use hydro_lang::prelude::*;
 
 /// Location tag of the single process used by the corpus.
 pub struct Node;
 
-/// batch + snapshot(count of the same input) + `use::state` (running sum of batch sizes).
-/// Emits per slice: (batch contents, count snapshot, state read at slice start, state written).
+type P<'a> = Process<'a, Node>;
+
+/// P1: `use::batch` + `use::snapshot` (count of the same input) + `use::state` (running sum of
+/// batch sizes). Record: (batch contents, count snapshot, state read, state written).
 pub fn batch_snapshot_state<'a>(
-    input: Stream<u32, Process<'a, Node>, Unbounded>,
-) -> Stream<(Vec<u32>, usize, usize, usize), Process<'a, Node>, Unbounded> {
+    input: Stream<u32, P<'a>, Unbounded>,
+) -> Stream<(Vec<u32>, usize, usize, usize), P<'a>, Unbounded> {
     let total = input.clone().count();
     sliced! {
         let batch = use::batch(input, nondet!(/** verif: all batchings enumerated */));
         let snap = use::snapshot(total, nondet!(/** verif: all snapshots enumerated */));
         let mut seen = use::state(|l| l.singleton(q!(0usize)));
 
-        let contents = batch.clone().fold(q!(|| Vec::new()), q!(|acc: &mut Vec<u32>, v| acc.push(v)));
+        let contents = batch.clone().collect_vec();
         let new_seen = seen.clone().zip(batch.count()).map(q!(|(a, b)| a + b));
         let out = contents
             .zip(snap)
             .zip(seen.zip(new_seen.clone()))
             .map(q!(|((c, s), (st_in, st_out))| (c, s, st_in, st_out)));
         seen = new_seen;
+        out.into_stream()
+    }
+}
+
+/// P2: `use::batch` + `use::state_null` (Optional holding the last element of the previous
+/// slice). Record: (batch contents, state read or 0 when null, state written or 0 when null).
+pub fn batch_state_null<'a>(
+    input: Stream<u32, P<'a>, Unbounded>,
+) -> Stream<(Vec<u32>, u32, u32), P<'a>, Unbounded> {
+    sliced! {
+        let batch = use::batch(input, nondet!(/** verif: all batchings enumerated */));
+        let mut prev = use::state_null::<Optional<u32, Tick<_>, Bounded>>();
+
+        let prev_or_zero = prev.clone().unwrap_or(prev.location().singleton(q!(0u32)));
+        let last = batch.clone().last();
+        let last_or_zero = last.clone().unwrap_or(prev.location().singleton(q!(0u32)));
+        let out = batch
+            .collect_vec()
+            .zip(prev_or_zero)
+            .zip(last_or_zero)
+            .map(q!(|((c, p), l)| (c, p, l)));
+        prev = last;
+        out.into_stream()
+    }
+}
+
+/// P3 (atomic style): the input enters an atomic region, a count is folded inside it, and the
+/// slice reads both through `use::atomic`. Also returns the `end_atomic` acknowledgement stream.
+/// Record: (batch contents, count snapshot).
+#[expect(clippy::type_complexity, reason = "corpus program")]
+pub fn atomic_batch_count<'a>(
+    input: Stream<u32, P<'a>, Unbounded>,
+) -> (
+    Stream<u32, P<'a>, Unbounded>,
+    Stream<(Vec<u32>, usize), P<'a>, Unbounded>,
+) {
+    let processing = input.atomic();
+    let count = processing.clone().count();
+    let ack = processing.clone().end_atomic();
+    let out = sliced! {
+        let batch = use::atomic(processing, nondet!(/** verif: all batchings enumerated */));
+        let snap = use::atomic(count, nondet!(/** verif: atomic snapshot */));
+        batch.collect_vec().zip(snap).into_stream()
+    };
+    (ack, out)
+}
+
+/// P4: unordered input. Record: (batch contents in arrival order of the batch, count snapshot,
+/// state read, state written); the checker compares batches as multisets.
+pub fn unordered_batch_snapshot_state<'a>(
+    input: Stream<u32, P<'a>, Unbounded, NoOrder>,
+) -> Stream<(Vec<u32>, usize, usize, usize), P<'a>, Unbounded> {
+    let total = input.clone().count();
+    sliced! {
+        let batch = use::batch(input, nondet!(/** verif: all batchings enumerated */));
+        let snap = use::snapshot(total, nondet!(/** verif: all snapshots enumerated */));
+        let mut seen = use::state(|l| l.singleton(q!(0usize)));
+
+        let contents = batch.clone().fold(
+            q!(|| Vec::new()),
+            q!(|acc: &mut Vec<u32>, v| acc.push(v), commutative = manual_proof!(/** compared as a multiset by the checker */)),
+        );
+        let new_seen = seen.clone().zip(batch.count()).map(q!(|(a, b)| a + b));
+        let out = contents
+            .zip(snap)
+            .zip(seen.zip(new_seen.clone()))
+            .map(q!(|((c, s), (st_in, st_out))| (c, s, st_in, st_out)));
+        seen = new_seen;
+        out.into_stream()
+    }
+}
+
+/// P5: two batch hooks (two inputs) and a snapshot in one slice.
+/// Record: (batch of a, batch of b, snapshot of count(a)).
+pub fn two_batches_snapshot<'a>(
+    a: Stream<u32, P<'a>, Unbounded>,
+    b: Stream<u32, P<'a>, Unbounded>,
+) -> Stream<(Vec<u32>, Vec<u32>, usize), P<'a>, Unbounded> {
+    let total_a = a.clone().count();
+    sliced! {
+        let batch_a = use::batch(a, nondet!(/** verif */));
+        let batch_b = use::batch(b, nondet!(/** verif */));
+        let snap = use::snapshot(total_a, nondet!(/** verif */));
+        batch_a
+            .collect_vec()
+            .zip(batch_b.collect_vec())
+            .zip(snap)
+            .map(q!(|((x, y), s)| (x, y, s)))
+            .into_stream()
+    }
+}
+
+/// P6: keyed batch. Input (key, value) with values 1,2,3..; record: the batch's entries grouped
+/// by key in per-key order, as a sorted vec of (key, values).
+pub fn keyed_batch<'a>(
+    input: Stream<(u32, u32), P<'a>, Unbounded>,
+) -> Stream<Vec<(u32, Vec<u32>)>, P<'a>, Unbounded> {
+    let keyed = input.into_keyed();
+    sliced! {
+        let batch = use::batch(keyed, nondet!(/** verif */));
+        batch
+            .fold(q!(|| Vec::new()), q!(|acc: &mut Vec<u32>, v| acc.push(v)))
+            .entries()
+            .fold(
+                q!(|| Vec::new()),
+                q!(|acc: &mut Vec<(u32, Vec<u32>)>, kv| {
+                    acc.push(kv);
+                    acc.sort();
+                }, commutative = manual_proof!(/** sorted after every insert */)),
+            )
+            .into_stream()
+    }
+}
+
+/// P7 (atomic + state): atomic batch, atomic count, and a `use::state` carrying the previous
+/// snapshot. Record: (batch, count snapshot, previous snapshot read from state).
+pub fn atomic_batch_count_state<'a>(
+    input: Stream<u32, P<'a>, Unbounded>,
+) -> Stream<(Vec<u32>, usize, usize), P<'a>, Unbounded> {
+    let processing: Stream<u32, Atomic<P<'a>>, Unbounded> = input.atomic();
+    let count = processing.clone().count();
+    sliced! {
+        let batch = use::atomic(processing, nondet!(/** verif */));
+        let snap = use::atomic(count, nondet!(/** verif */));
+        let mut prev_snap = use::state(|l| l.singleton(q!(0usize)));
+
+        let out = batch
+            .collect_vec()
+            .zip(snap.clone())
+            .zip(prev_snap)
+            .map(q!(|((c, s), p)| (c, s, p)));
+        prev_snap = snap;
         out.into_stream()
     }
 }
